@@ -687,6 +687,9 @@ def case_cpgrid(case, ctx):
     spec, stride_x = case["grid"], case["stride"]
     D = len(spec["size"])
     base = f"C14/cpgrid/D={D}"
+    if D == 1:
+        ctx.acc.undef("cpgrid:Grid.index_to_world of a 1-D grid is not usable as an observation")
+        return
     ctx.acc.state("cpgrid", repr(spec), tuple(stride_x))
     ctx.acc.trace("cpgrid")
     g = ctx.call(base + "/grid", _grid, spec)
@@ -776,7 +779,7 @@ def cases_eval(tier):
     st = STRIDES if tier == "thorough" else [1, 2, 3, 5]
     for shape in itertools.product(sz, repeat=2):
         for stride in itertools.product(st, repeat=2):
-            out.append({"sub": "eval", "shape": list(shape), "stride": list(stride), "layout": "N", "dtype": "f64", "forms": forms_all})
+            out.append({"sub": "eval", "shape": list(shape), "stride": list(stride), "layout": "N", "dtype": "f64", "forms": forms_all if tier == "thorough" else ["shape", "size", "kernel"]})
             if tier == "thorough":
                 out.append({"sub": "eval", "shape": list(shape), "stride": list(stride), "layout": "NC", "dtype": "f32", "forms": ["shape"]})
                 out.append({"sub": "eval", "shape": list(shape), "stride": list(stride), "layout": "C", "dtype": "f32", "forms": ["shape"]})
@@ -826,7 +829,7 @@ def cases_subdivide(tier):
             for dk in ("f64", "f32"):
                 for s1 in steps:
                     out.append({"sub": "subdivide", "cp": cp, "chain": [s1], "dtype": dk, "eval_strides": [1, 2, 3]})
-                    if dk == "f64" and s1["form"] in ("none", "list"):
+                    if dk == "f64" and s1["form"] in ("none", "list") and (tier == "thorough" or D < 3 or cp == lst[0]):
                         for s2 in steps:
                             if s2["form"] in ("none", "list"):
                                 out.append({"sub": "subdivide", "cp": cp, "chain": [s1, s2], "dtype": dk, "eval_strides": [1, 2]})
@@ -863,7 +866,7 @@ def cases_ffd_grid(tier):
         for s in (1, 2, 5):
             out.append({"sub": "ffd_grid", "size": [m], "stride": [s], "steps": [[0], [0]], "transpose": False, "grid": "unit"})
     # D = 2: every size in [3,17]^2 (thorough) / [3,9]^2 (quick)
-    hi = 17 if tier == "thorough" else 9
+    hi = 17 if tier == "thorough" else 8
     strides2 = [(1, 1), (2, 3), (5, 5), (4, 2)]
     for nx in range(3, hi + 1):
         for ny in range(3, hi + 1):
